@@ -524,6 +524,10 @@ class SymInterp:
                 return not v
             if isinstance(e.op, ast.USub):
                 return -v
+            if isinstance(e.op, ast.Invert):
+                return ~v
+            if isinstance(e.op, ast.UAdd):
+                return +v
         if isinstance(e, ast.BoolOp):
             if isinstance(e.op, ast.And):
                 r = True
@@ -640,7 +644,7 @@ class SymInterp:
                 return self.builtins[n](*args, **kwargs)
             std = {"len": len, "list": list, "tuple": tuple, "enumerate": lambda x: list(enumerate(x)), "range": lambda *a: (list(range(*a)) if len(range(*a)) <= 10 ** 6 else range(*a)), "zip": lambda *a: list(zip(*a)),
                    "str": lambda x: x if isinstance(x, str) else repr(x), "isinstance": lambda *a: False, "min": min, "max": max, "bool": bool, "int": int, "abs": abs, "slice": slice, "getattr": self._getattr, "setattr": setattr, "hasattr": hasattr, "dict": dict, "reversed": lambda x: list(reversed(x)), "set": set, "sorted": sorted, "map": lambda f_, *xs: [f_(*a_) for a_ in zip(*xs)], "any": any, "all": all, "sum": sum,
-                   "frozenset": frozenset, "round": round, "divmod": divmod, "type": type}
+                   "frozenset": frozenset, "round": round, "divmod": divmod, "type": type, "next": next, "iter": iter, "repr": repr, "callable": callable}
             if n in std:
                 if kwargs and n not in ("sorted", "min", "max", "dict", "enumerate", "int", "round", "sum"):
                     raise AnalysisError(f"keyword arguments of builtin {n} are not modelled")
